@@ -70,8 +70,9 @@ func Verify[H Header[H]](trstd, untrstd H) error {
 	adjacent := untrstd.Height() == trstd.Height()+1
 	if !adjacent {
 		// if non-adjacent, we don't know if the header is *really* wrong
-		// so set as soft
-		verErr.SoftFailure = true
+		// so report it as soft - on a copy: verErr may be an error value the
+		// header type keeps and returns again, it must not be written to
+		verErr = &VerifyError{Reason: verErr.Reason, SoftFailure: true}
 	}
 	// we trust adjacent verification to it's fullest
 	// if verification fails - the header is *really* wrong
